@@ -2176,15 +2176,14 @@ impl StorageEngine {
     pub fn keys(&self, db: DatabaseIndex, pattern: &[u8]) -> Result<Vec<Vec<u8>>> {
         let database = self.databases.get(db).ok_or(StorageError::InvalidDatabase)?;
         
-        let pattern_str = String::from_utf8_lossy(pattern);
+        let pattern_str = pattern;
         let mut matching_keys = Vec::new();
         
         // Collect keys from all shards
         for shard in &database.shards {
             let shard_guard = shard.read().unwrap();
             for key in shard_guard.data.keys() {
-                let key_str = String::from_utf8_lossy(key);
-                if pattern_matches(&pattern_str, &key_str) {
+                if pattern_matches(pattern_str, key) {
                     matching_keys.push(key.clone());
                 }
             }
@@ -2368,7 +2367,7 @@ impl StorageEngine {
         let mut keys_examined = 0;
         let mut current_pos = start_pos;
         
-        let pattern_str = pattern.map(|p| String::from_utf8_lossy(p));
+        let pattern_str = pattern;
         
         while Self::scan_page_continues(&hashes, current_pos, keys_examined < max_scan_count * 10 && matching_keys.len() < max_scan_count) {
             if current_pos >= all_keys.len() {
@@ -2379,8 +2378,7 @@ impl StorageEngine {
             let mut include_key = true;
             
             if let Some(ref pat) = pattern_str {
-                let key_str = String::from_utf8_lossy(key);
-                if !pattern_matches(pat, &key_str) {
+                if !pattern_matches(pat, key) {
                     include_key = false;
                 }
             }
@@ -2431,7 +2429,7 @@ impl StorageEngine {
                 let mut result = Vec::new();
                 let mut fields_examined = 0;
                 let mut current_pos = start_pos;
-                let pattern_str = pattern.map(|p| String::from_utf8_lossy(p));
+                let pattern_str = pattern;
                 
                 while Self::scan_page_continues(&hashes, current_pos, fields_examined < max_scan_count * 10 && (result.len() / if no_values { 1 } else { 2 }) < max_scan_count) {
                     if current_pos >= fields.len() {
@@ -2442,8 +2440,7 @@ impl StorageEngine {
                     let mut include_field = true;
                     
                     if let Some(ref pat) = pattern_str {
-                        let field_str = String::from_utf8_lossy(field);
-                        if !pattern_matches(pat, &field_str) {
+                        if !pattern_matches(pat, field) {
                             include_field = false;
                         }
                     }
@@ -2499,7 +2496,7 @@ impl StorageEngine {
                 let mut result = Vec::new();
                 let mut members_examined = 0;
                 let mut current_pos = start_pos;
-                let pattern_str = pattern.map(|p| String::from_utf8_lossy(p));
+                let pattern_str = pattern;
                 
                 while Self::scan_page_continues(&hashes, current_pos, members_examined < max_scan_count * 10 && result.len() < max_scan_count) {
                     if current_pos >= members.len() {
@@ -2510,8 +2507,7 @@ impl StorageEngine {
                     let mut include_member = true;
                     
                     if let Some(ref pat) = pattern_str {
-                        let member_str = String::from_utf8_lossy(member);
-                        if !pattern_matches(pat, &member_str) {
+                        if !pattern_matches(pat, member) {
                             include_member = false;
                         }
                     }
@@ -2570,7 +2566,7 @@ impl StorageEngine {
                 let mut result = Vec::new();
                 let mut items_examined = 0;
                 let mut current_pos = start_pos;
-                let pattern_str = pattern.map(|p| String::from_utf8_lossy(p));
+                let pattern_str = pattern;
                 
                 while Self::scan_page_continues(&hashes, current_pos, items_examined < max_scan_count * 10 && result.len() < max_scan_count) {
                     if current_pos >= items.len() {
@@ -2581,8 +2577,7 @@ impl StorageEngine {
                     let mut include_item = true;
                     
                     if let Some(ref pat) = pattern_str {
-                        let member_str = String::from_utf8_lossy(member);
-                        if !pattern_matches(pat, &member_str) {
+                        if !pattern_matches(pat, member) {
                             include_item = false;
                         }
                     }
@@ -2895,10 +2890,11 @@ mod tests {
     }
 }
 
-/// Simple glob pattern matching (unchanged)
-fn pattern_matches(pattern: &str, text: &str) -> bool {
-    let pattern_chars: Vec<char> = pattern.chars().collect();
-    let text_chars: Vec<char> = text.chars().collect();
+/// Glob pattern matching on bytes, as Redis does (keys, fields and members are byte strings:
+/// matching their lossy UTF-8 text made every invalid byte equal to every other)
+fn pattern_matches(pattern: &[u8], text: &[u8]) -> bool {
+    let pattern_chars: &[u8] = pattern;
+    let text_chars: &[u8] = text;
     
     let mut p_idx = 0;
     let mut t_idx = 0;
@@ -2908,32 +2904,32 @@ fn pattern_matches(pattern: &str, text: &str) -> bool {
     while t_idx < text_chars.len() {
         if p_idx < pattern_chars.len() {
             match pattern_chars[p_idx] {
-                '?' => {
+                b'?' => {
                     p_idx += 1;
                     t_idx += 1;
                     continue;
                 }
-                '*' => {
+                b'*' => {
                     star_idx = Some(p_idx);
                     star_match_idx = t_idx;
                     p_idx += 1;
                     continue;
                 }
-                '[' => {
+                b'[' => {
                     // As in Redis, a backslash takes the next character literally, the first
-                    // unescaped ']' closes the class, a class that is never closed runs to the
+                    // unescaped b']' closes the class, a class that is never closed runs to the
                     // end of the pattern, and the ends of a reversed range are swapped.
-                    let negate = p_idx + 1 < pattern_chars.len() && pattern_chars[p_idx + 1] == '^';
+                    let negate = p_idx + 1 < pattern_chars.len() && pattern_chars[p_idx + 1] == b'^';
                     let mut i = if negate { p_idx + 2 } else { p_idx + 1 };
                     
                     let mut matched = false;
-                    while i < pattern_chars.len() && pattern_chars[i] != ']' {
-                        if pattern_chars[i] == '\\' && i + 1 < pattern_chars.len() {
+                    while i < pattern_chars.len() && pattern_chars[i] != b']' {
+                        if pattern_chars[i] == b'\\' && i + 1 < pattern_chars.len() {
                             i += 1;
                             if text_chars[t_idx] == pattern_chars[i] {
                                 matched = true;
                             }
-                        } else if i + 2 < pattern_chars.len() && pattern_chars[i + 1] == '-' {
+                        } else if i + 2 < pattern_chars.len() && pattern_chars[i + 1] == b'-' {
                             let (low, high) = if pattern_chars[i] <= pattern_chars[i + 2] {
                                 (pattern_chars[i], pattern_chars[i + 2])
                             } else {
@@ -2950,13 +2946,13 @@ fn pattern_matches(pattern: &str, text: &str) -> bool {
                     }
                     
                     if matched != negate {
-                        // step over the closing ']' if there is one
+                        // step over the closing b']' if there is one
                         p_idx = if i < pattern_chars.len() { i + 1 } else { i };
                         t_idx += 1;
                         continue;
                     }
                 }
-                '\\' if p_idx + 1 < pattern_chars.len() => {
+                b'\\' if p_idx + 1 < pattern_chars.len() => {
                     if pattern_chars[p_idx + 1] == text_chars[t_idx] {
                         p_idx += 2;
                         t_idx += 1;
@@ -2982,7 +2978,7 @@ fn pattern_matches(pattern: &str, text: &str) -> bool {
         }
     }
     
-    while p_idx < pattern_chars.len() && pattern_chars[p_idx] == '*' {
+    while p_idx < pattern_chars.len() && pattern_chars[p_idx] == b'*' {
         p_idx += 1;
     }
     
